@@ -215,6 +215,7 @@ struct C19 : vr::Driver {
   }
   std::string klass(size_t i) override { return cfgs[i].fam == 'L' ? "counters" : cfgs[i].fam == 'P' ? "protocol" : "socket-path"; }
   double scenarioTimeoutSec() override { return 3000; }
+  bool tieBreakNondeterminism() override { return true; }
   double deadlineSec(const std::string& tier) override { return tier == "quick" ? 240 : 1500; }
 
   static std::string sockPath() { return "/dev/shm/c19s." + std::to_string(getpid()); }
@@ -428,6 +429,7 @@ struct C19 : vr::Driver {
     r.counters["states"] += (long long)st.outcomes.size();
     r.counters["transitions"] += (long long)st.schedules;
     r.counters["schedules"] += (long long)st.schedules;
+    r.counters["nd_schedules_re_executed_after_divergence_or_timeout"] += (long long)st.retries;
     r.counters[std::string("schedules_") + klass(ci)] += (long long)st.schedules;
     r.counters["max_schedules_one_config"] = (long long)st.schedules;
     r.counters["configs_bound_completed"] += done ? 1 : 0;
